@@ -259,7 +259,13 @@ func verifyFunc(L *Loaded, fc *FuncContract, fn *ssa.Function) (res *FuncResult)
 			panic(r)
 		}
 	}()
-	ex := newExec(L, fc, fn.Pkg.Pkg)
+	tpkg := (*types.Package)(nil)
+	if fn.Pkg != nil {
+		tpkg = fn.Pkg.Pkg
+	} else if o := fn.Object(); o != nil {
+		tpkg = o.Pkg() // synthetic pointer-receiver wrapper
+	}
+	ex := newExec(L, fc, tpkg)
 	ex.fnKey = fc.Key
 	ex.escaped = map[string]*LV{}
 	fr := ex.newFrame(fn, nil)
